@@ -526,6 +526,8 @@ def wire_histories(rng, tier: str):
 MUT_VALUES = [None, True, False, 0, 1, -1, 7, 100, 101, 255, 256, BIG, 1.0, 0.0, -0.0, 1.5, 100.9, -0.9, 255.5, 1e300, math.nan,
               math.inf, -math.inf, "", "1", "0", " 3 ", "1_7", "+5", "٣", "x", "yes", "No", "TRUE", "tRUE", "id", "idx", "type",
               "xtypex", "sensor_id", "sketch_name", "sketch_version", "9" * (MAXD + 1), "9" * MAXD,
+              # strings that mean something to a version parser (a stored library version is just a string to load)
+              "20.1.2.\n.", "2024.1.2.\n.", "2.2.0-beta", "latest", "v2.1", "0x10", "2.x", "1e999", "2..2",
               [], [1], ["id"], ["type"], ["x", "type"], ["sensor_id"], ["sketch_name"], ["sketch_version"], [[]],
               {}, {"a": 1}, {"1": 5}, {"1": None}, {"x": {}}, {"1": "s"}, {"1": {}}, {" 1 ": "a", "1": "b"}]
 
